@@ -608,8 +608,12 @@ impl File {
             roots.push(ast::Root::Face(face.into()))
         }
         for (i, &u) in self.header.additional_data.iter().enumerate() {
-            let i: u8 = i.try_into().unwrap();
-            let i = i.checked_add(18).unwrap(); // TODO: gotta be a warning here
+            // Header indices are 8-bit integers in property list files (PLtoTF.2014.91),
+            // so words of the header beyond index 255 cannot be output.
+            // TODO: gotta be a warning here
+            let Some(i) = u8::try_from(i).ok().and_then(|i| i.checked_add(18)) else {
+                break;
+            };
             roots.push(ast::Root::Header((ast::DecimalU8(i), u).into()))
         }
         #[derive(Clone, Copy)]
